@@ -1,6 +1,7 @@
 package rules
 
 import (
+	"math"
 	"fmt"
 	"go/token"
 	"go/types"
@@ -354,6 +355,7 @@ func runC16(c *Ctx) {
 			c.Decide("C16.R1", cal, "helper called with decoded data analysed", nil, true, "")
 		}
 	}
+	c.tableIndexInRange("C16.R7", decoders)
 	c.R.Floor("C16.R1", 4)
 	c.R.Floor("C16.R2", 1)
 	c.R.Floor("C16.R3", 1)
@@ -393,6 +395,32 @@ func (c *Ctx) wireLengthTaint(fn *ssa.Function, buf ssa.Value, isDecoder map[*ss
 			if ex.Index == 0 {
 				tainted[ex] = true
 			}
+		}
+	})
+	// a byte of the input itself, used as a number (a one-byte length header read without the varint decoder). Sums and
+	// shifts of single bytes are how a decoder assembles its value and cannot overflow on their own, so for these only
+	// the places where the number is used as a bound count (byteTaint: values built from raw bytes only)
+	byteTaint := map[ssa.Value]bool{}
+	ir.Instrs(fn, func(in ssa.Instruction) {
+		ld, ok := in.(*ssa.UnOp)
+		if !ok || ld.Op != token.MUL {
+			return
+		}
+		ia, ok := ld.X.(*ssa.IndexAddr)
+		if !ok {
+			return
+		}
+		base := ia.X
+		for {
+			if sl, isSl := base.(*ssa.Slice); isSl {
+				base = sl.X
+				continue
+			}
+			break
+		}
+		if ir.Resolve(base) == ir.Resolve(buf) {
+			tainted[ld] = true
+			byteTaint[ld] = true
 		}
 	})
 	if len(tainted) == 0 {
@@ -440,6 +468,65 @@ func (c *Ctx) wireLengthTaint(fn *ssa.Function, buf ssa.Value, isDecoder map[*ss
 				}
 			}
 		})
+	}
+	for changed := true; changed; {
+		changed = false
+		ir.Instrs(fn, func(in ssa.Instruction) {
+			v, ok := in.(ssa.Value)
+			if !ok || byteTaint[v] || !tainted[v] {
+				return
+			}
+			all := true
+			any := false
+			for _, op := range in.Operands(nil) {
+				if *op == nil {
+					continue
+				}
+				if tainted[*op] {
+					any = true
+					if !byteTaint[*op] {
+						all = false
+					}
+				}
+			}
+			if any && all {
+				byteTaint[v] = true
+				changed = true
+			}
+		})
+	}
+	var nonNegExpr func(v ssa.Value, d int) bool
+	nonNegExpr = func(v ssa.Value, d int) bool {
+		if d > 4 {
+			return false
+		}
+		if k, isC := ir.ConstInt(v); isC {
+			return k >= 0
+		}
+		switch x := v.(type) {
+		case *ssa.Convert:
+			fb, ok1 := x.X.Type().Underlying().(*types.Basic)
+			tb, ok2 := x.Type().Underlying().(*types.Basic)
+			if ok1 && ok2 && fb.Info()&types.IsUnsigned != 0 && basicBitsB(fb) < basicBitsB(tb) {
+				return true // widening of an unsigned value
+			}
+			if ok1 && fb.Info()&types.IsUnsigned == 0 {
+				return nonNegExpr(x.X, d+1)
+			}
+		case *ssa.BinOp:
+			switch x.Op {
+			case token.ADD, token.MUL, token.AND, token.OR, token.SHR, token.QUO, token.REM:
+				return nonNegExpr(x.X, d+1) && nonNegExpr(x.Y, d+1)
+			}
+		case *ssa.Phi:
+			for _, e := range x.Edges {
+				if !nonNegExpr(e, d+1) {
+					return false
+				}
+			}
+			return len(x.Edges) > 0
+		}
+		return false
 	}
 	// the unsigned ancestor of a converted value
 	root := func(v ssa.Value) ssa.Value {
@@ -506,7 +593,7 @@ func (c *Ctx) wireLengthTaint(fn *ssa.Function, buf ssa.Value, isDecoder map[*ss
 		cx := ctxAtB(at)
 		v = cx.refine(v)
 		u := root(v)
-		upper, nonNeg := false, isUnsigned(v.Type()) && v == u
+		upper, nonNeg := false, (isUnsigned(v.Type()) && v == u) || (byteTaint[v] && nonNegExpr(v, 0))
 		for _, f := range cx.facts {
 			cm, ok := f.Cmp()
 			if !ok {
@@ -546,8 +633,11 @@ func (c *Ctx) wireLengthTaint(fn *ssa.Function, buf ssa.Value, isDecoder map[*ss
 		if v == nil || !tainted[v] {
 			return
 		}
+		if byteTaint[v] && what == "arithmetic" {
+			return
+		}
 		// a value that is itself the result of arithmetic on tainted operands was reported at that arithmetic
-		if bo, ok := v.(*ssa.BinOp); ok && (tainted[bo.X] || tainted[bo.Y]) {
+		if bo, ok := v.(*ssa.BinOp); ok && (tainted[bo.X] || tainted[bo.Y]) && !byteTaint[v] {
 			return
 		}
 		c.Decide("C16.R3", fn, what+" on wire length", in, bounded(v, in.Block()),
@@ -868,6 +958,7 @@ func runC15(c *Ctx) {
 	c.fixedWidthSiblings()
 	c.oneEncoder()
 	c.independentCopy()
+	c.tightSizeGuards()
 	// S7 short buffer is an error
 	handedTo := map[*ssa.Parameter]bool{}
 	for _, fn := range xbinaryFuncs(c, "Marshal") {
@@ -2281,4 +2372,309 @@ func (c *Ctx) sliceRemaining(fn *ssa.Function, s *ssa.Slice, tainted map[ssa.Val
 	}
 	c.Decide("C16.R3", fn, "wire length bounded by what remains of the sliced input", s, ok,
 		"the length taken from the input is compared with something else than the remaining length of the slice it cuts (len(x)-offset): a record truncated by less than the header size passes the check, the decoder over-reads behind the input or panics")
+}
+
+// basicBitsB: the width of an integer type in bits (int/uint/uintptr count as 64).
+func basicBitsB(b *types.Basic) int {
+	switch b.Kind() {
+	case types.Int8, types.Uint8:
+		return 8
+	case types.Int16, types.Uint16:
+		return 16
+	case types.Int32, types.Uint32:
+		return 32
+	}
+	return 64
+}
+
+// tableIndexInRange (C16.R7): the private functions of the package that the decoders reach (error constructors, size
+// formatters) index fixed-size tables in range. A decoder that detects bad input correctly and then panics while it
+// builds the error is not total. The index is evaluated as an interval: constants, + - and / by constants, widening
+// conversions, bits.Len (monotone, so an interval of the argument gives an interval of the result), a parameter or
+// other value refined by the comparisons with constants that dominate the access. An index the evaluator cannot bound
+// is undecided, an interval that leaves [0, len) is a violation.
+func (c *Ctx) tableIndexInRange(rule string, decoders []*ssa.Function) {
+	pkg := c.P.SSAPkg("xbinary")
+	reach := map[*ssa.Function]bool{}
+	var visit func(fn *ssa.Function, d int)
+	visit = func(fn *ssa.Function, d int) {
+		if fn == nil || reach[fn] || d > 4 || len(fn.Blocks) == 0 || fn.Pkg != pkg {
+			return
+		}
+		reach[fn] = true
+		for _, call := range ir.Calls(fn) {
+			visit(ir.StaticCallee(call), d+1)
+		}
+	}
+	for _, fn := range decoders {
+		visit(fn, 0)
+	}
+	const big = int64(1) << 62
+	type iv struct{ lo, hi int64 }
+	clampAdd := func(a, b int64) int64 {
+		r := a + b
+		if a > 0 && b > 0 && r < 0 {
+			return math.MaxInt64
+		}
+		if a < 0 && b < 0 && r > 0 {
+			return math.MinInt64
+		}
+		return r
+	}
+	bitsLen := func(x int64) int64 {
+		n := int64(0)
+		for x > 0 {
+			n++
+			x >>= 1
+		}
+		return n
+	}
+	var eval func(v ssa.Value, at *ssa.BasicBlock, d int) (iv, bool)
+	eval = func(v ssa.Value, at *ssa.BasicBlock, d int) (iv, bool) {
+		if d > 8 {
+			return iv{}, false
+		}
+		if k, isC := ir.ConstInt(v); isC {
+			return iv{k, k}, true
+		}
+		var r iv
+		ok := false
+		switch x := v.(type) {
+		case *ssa.Convert:
+			r, ok = eval(x.X, at, d+1)
+			if ok {
+				if tb, isB := x.Type().Underlying().(*types.Basic); isB && tb.Info()&types.IsUnsigned != 0 && r.lo < 0 {
+					ok = false // a negative value becomes a huge one
+				}
+			}
+		case *ssa.BinOp:
+			a, ok1 := eval(x.X, at, d+1)
+			b, ok2 := eval(x.Y, at, d+1)
+			if ok1 && ok2 {
+				switch x.Op {
+				case token.ADD:
+					r, ok = iv{clampAdd(a.lo, b.lo), clampAdd(a.hi, b.hi)}, true
+				case token.SUB:
+					r, ok = iv{clampAdd(a.lo, -b.hi), clampAdd(a.hi, -b.lo)}, true
+				case token.QUO:
+					if b.lo == b.hi && b.lo > 0 && a.lo >= 0 {
+						r, ok = iv{a.lo / b.lo, a.hi / b.lo}, true
+					}
+				case token.REM:
+					if b.lo == b.hi && b.lo > 0 && a.lo >= 0 {
+						r, ok = iv{0, b.lo - 1}, true
+					}
+				case token.SHR:
+					if b.lo == b.hi && b.lo >= 0 && b.lo < 63 && a.lo >= 0 {
+						r, ok = iv{a.lo >> uint(b.lo), a.hi >> uint(b.lo)}, true
+					}
+				case token.AND:
+					if b.lo == b.hi && b.lo >= 0 {
+						r, ok = iv{0, b.lo}, true
+					}
+				}
+			}
+		case *ssa.Call:
+			name := ir.CalleeFullName(x)
+			if strings.HasPrefix(name, "math/bits.Len") && len(x.Call.Args) == 1 {
+				width := int64(64)
+				switch name {
+				case "math/bits.Len32":
+					width = 32
+				case "math/bits.Len16":
+					width = 16
+				case "math/bits.Len8":
+					width = 8
+				}
+				if a, okA := eval(x.Call.Args[0], at, d+1); okA && a.lo >= 0 {
+					r, ok = iv{bitsLen(a.lo), minI(bitsLen(a.hi), width)}, true
+				} else {
+					r, ok = iv{0, width}, true
+				}
+			}
+			if cc := builtinCall(x, "len"); cc != nil {
+				if arr, isArr := derefArray(cc.Args[0].Type()); isArr {
+					r, ok = iv{arr.Len(), arr.Len()}, true
+				} else {
+					r, ok = iv{0, math.MaxInt64}, true
+				}
+			}
+		case *ssa.Phi:
+			first := true
+			ok = true
+			for _, e := range x.Edges {
+				ev, okE := eval(e, at, d+1)
+				if !okE {
+					ok = false
+					break
+				}
+				if first {
+					r, first = ev, false
+				} else {
+					r = iv{minI(r.lo, ev.lo), maxI(r.hi, ev.hi)}
+				}
+			}
+		}
+		if !ok {
+			// an opaque integer: the range of its type
+			tb, isB := v.Type().Underlying().(*types.Basic)
+			if !isB || tb.Info()&types.IsInteger == 0 {
+				return iv{}, false
+			}
+			r = iv{math.MinInt64, math.MaxInt64}
+			if tb.Info()&types.IsUnsigned != 0 {
+				r.lo = 0
+			}
+			switch tb.Kind() {
+			case types.Uint8:
+				r.hi = 255
+			case types.Uint16:
+				r.hi = 65535
+			case types.Int8:
+				r = iv{-128, 127}
+			case types.Int16:
+				r = iv{-32768, 32767}
+			}
+			ok = true
+		}
+		// refine by the comparisons with constants that dominate the point of use
+		for _, f := range ir.Facts(at) {
+			cm, isCmp := f.Cmp()
+			if !isCmp {
+				continue
+			}
+			x, y, op := cm.X, cm.Y, cm.Op
+			if x != v {
+				if y != v {
+					continue
+				}
+				x, y, op = y, x, ir.SwapOp(op)
+			}
+			k, isC := ir.ConstInt(y)
+			if !isC {
+				continue
+			}
+			switch op {
+			case token.LSS:
+				r.hi = minI(r.hi, k-1)
+			case token.LEQ:
+				r.hi = minI(r.hi, k)
+			case token.GTR:
+				r.lo = maxI(r.lo, k+1)
+			case token.GEQ:
+				r.lo = maxI(r.lo, k)
+			case token.EQL:
+				r.lo, r.hi = maxI(r.lo, k), minI(r.hi, k)
+			}
+		}
+		return r, true
+	}
+	n := 0
+	for fn := range reach {
+		fn := fn
+		ir.Instrs(fn, func(in ssa.Instruction) {
+			var x, idx ssa.Value
+			switch y := in.(type) {
+			case *ssa.IndexAddr:
+				x, idx = y.X, y.Index
+			case *ssa.Index:
+				x, idx = y.X, y.Index
+			default:
+				return
+			}
+			arr, isArr := derefArray(x.Type())
+			if !isArr {
+				return
+			}
+			if _, isC := ir.ConstInt(idx); isC {
+				return // checked by the compiler
+			}
+			n++
+			r, ok := eval(idx, in.Block(), 0)
+			if !ok {
+				c.Undecided(rule, fn, "table index in range", in, "cannot bound the index of a fixed-size table")
+				return
+			}
+			c.Decide(rule, fn, "table index in range", in, r.lo >= 0 && r.hi < arr.Len(),
+				fmt.Sprintf("a table of %d elements is indexed with a value in [%d,%d]: on the inputs at the ends of that range the decoder panics (index out of range) while it handles - or reports - the input, instead of returning an error", arr.Len(), r.lo, r.hi))
+		})
+	}
+	if n == 0 {
+		c.Decide(rule, decoders[0], "table index in range", nil, true, "")
+	}
+}
+
+// tightSizeGuards (C15.S9): a fixed-width coder refuses a buffer only when it is shorter than the N bytes it reports to
+// have written / read. The guard `len(buf) < N` may be written in any form, but a buffer of exactly N bytes - what the
+// encoder just produced, a value that sits at the very end of a stream - must pass: the round trip of a value through
+// its own encoding depends on it.
+func (c *Ctx) tightSizeGuards() {
+	n := 0
+	for _, pre := range []string{"Unmarshal", "Marshal"} {
+		for _, fn := range xbinaryFuncs(c, pre) {
+			buf := bufParam(fn, pre == "Marshal")
+			if buf == nil {
+				continue
+			}
+			errIdx := ir.ErrResultIndex(fn)
+			if errIdx < 0 {
+				continue
+			}
+			// the constant count of the success exits
+			size, fixed := int64(-1), true
+			for _, e := range ir.ExitPoints(fn) {
+				if ir.ClassifyErr(e.Result(errIdx), e.Block) != ir.ErrNil {
+					continue
+				}
+				k, isC := ir.ConstInt(ir.Resolve(e.Result(0)))
+				if !isC || (size >= 0 && size != k) {
+					fixed = false
+				}
+				size = k
+			}
+			if !fixed || size <= 0 {
+				continue // not a fixed-width coder
+			}
+			for _, e := range ir.ExitPoints(fn) {
+				if ir.ClassifyErr(e.Result(errIdx), e.Block) == ir.ErrNil {
+					continue
+				}
+				// the largest buffer length this exit refuses
+				refusesUpTo, found := int64(-1), false
+				for _, f := range e.Facts() {
+					cm, isCmp := f.Cmp()
+					if !isCmp {
+						continue
+					}
+					x, y, op := cm.X, cm.Y, cm.Op
+					if !isLenOf(x, buf) {
+						if !isLenOf(y, buf) {
+							continue
+						}
+						x, y, op = y, x, ir.SwapOp(op)
+					}
+					k, isC := ir.ConstInt(y)
+					if !isC {
+						continue
+					}
+					switch op {
+					case token.LSS:
+						refusesUpTo, found = k-1, true
+					case token.LEQ:
+						refusesUpTo, found = k, true
+					case token.EQL:
+						refusesUpTo, found = k, true
+					}
+				}
+				if !found {
+					continue
+				}
+				n++
+				c.Decide("C15.S9", fn, "buffer of exactly the coded size is accepted", e.Ret, refusesUpTo < size,
+					fmt.Sprintf("%s refuses buffers of up to %d bytes but codes %d: the exact encoding of a value (a value at the very end of a stream) is refused, decode(encode(v)) fails", fn.Name(), refusesUpTo, size))
+			}
+		}
+	}
+	c.R.Floor("C15.S9", 6)
+	_ = n
 }
